@@ -237,11 +237,24 @@ Proof. intros (_ & [(A & B & E) | [(A & _) | (i & ps & A & B & C & D & _)]]) Hr.
   - left. assumption.
   - right. exists i, ps. auto. Qed.
 
-Lemma cstep_log lo m cfg R' cs' e :
-  Inv lo cfg -> LogInv cfg -> cstep m (g_ring cfg) (g_cons cfg) = (R', cs', Some e) -> c_pc cs' <> CPanic ->
-  LogInv (mkCfg R' cs' (g_prods cfg)).
+(* a consumer step leaves the log as a whole unchanged *)
+Definition dlog (cfg : config) : list tmsg := delivered (g_cons cfg) ++ msgs_of (r_slots (g_ring cfg)).
+
+Lemma dlog_tags cfg : map tag2 (dlog cfg) = log cfg.
+Proof. unfold dlog, log, pending, msgs_of. rewrite map_app, map_map. reflexivity. Qed.
+
+Definition cons_log_facts (cfg : config) (R' : ring) (cs' : cstate) : Prop :=
+  delivered cs' ++ msgs_of (r_slots R') = dlog cfg /\
+  map tag2 (delivered cs') ++ pending R' = log cfg /\
+  (forall x, In x (delivered cs') -> In x (delivered (g_cons cfg)) \/
+      (let '(o, k, ty, b) := x in o = 0 \/ exists i ps, o = Z.of_nat (S i) /\ nth_error (g_prods cfg) i = Some ps /\
+                                  0 <= k /\ nth_error (p_prog ps) (Z.to_nat k) = Some (ty, b))).
+
+Lemma cstep_log_facts lo m cfg R' cs' e :
+  Inv lo cfg -> cstep m (g_ring cfg) (g_cons cfg) = (R', cs', Some e) -> c_pc cs' <> CPanic ->
+  cons_log_facts cfg R' cs'.
 Proof.
-  intros HI HL Hstep Hnp. destruct cfg as [R cs prods]. cbn [g_ring g_cons g_prods] in *.
+  intros HI Hstep Hnp. destruct cfg as [R cs prods]. cbn [g_ring g_cons g_prods] in *.
   pose proof (i_cons _ _ HI) as Ics. pose proof (i_tiled _ _ HI) as Itl. pose proof (i_cap _ _ HI) as Icap.
   cbn [g_ring g_cons g_prods] in *.
   pose proof (cap_ok_range _ Icap) as Hcr.
@@ -249,8 +262,9 @@ Proof.
   (* steps that neither consume nor publish: the log is untouched *)
   assert (KEEP : forall cs1, delivered cs1 = concat (map snd (c_res cs)) ->
             (match c_pc cs with CPutHead _ _ _ _ => False | _ => True end) ->
-            LogInv (mkCfg R cs1 prods)).
-  { intros cs1 E Hpc. apply (loginv_cons (mkCfg R cs prods) R cs1 HL).
+            cons_log_facts (mkCfg R cs prods) R cs1).
+  { intros cs1 E Hpc. split; [| split].
+    - unfold dlog. cbn [g_ring g_cons]. rewrite E. unfold delivered. destruct (c_pc cs); try contradiction; rewrite app_nil_r; reflexivity.
     - unfold log. cbn [g_ring g_cons]. rewrite E. unfold delivered. destruct (c_pc cs); try contradiction; rewrite app_nil_r; reflexivity.
     - intros x Hx. left. cbn [g_cons]. rewrite E in Hx. unfold delivered. apply in_or_app. left. assumption. }
   destruct (c_pc cs) eqn:Epc; try (inversion Hstep; fail); try contradiction.
@@ -300,7 +314,7 @@ Proof.
     assert (Hbp : bytes <> 0).
     { destruct (tiled_split_sum _ _ _ _ _ Itl) as (A & _). pose proof (tiled_len8 _ _ _ _ A) as L8.
       rewrite app_length in L8. cbn [length] in L8. lia. }
-    match goal with |- LogInv (mkCfg _ (loop_check ?a ?b ?c ?d ?e ?f ?g ?h) _) =>
+    match goal with |- cons_log_facts _ _ (loop_check ?a ?b ?c ?d ?e ?f ?g ?h) =>
       destruct (loop_check_deliv a b c d e f g h ltac:(intros; lia)) as [X | X]; [contradiction |] end.
     apply KEEP; [exact X | exact I].
   - (* CZero: what was walked over leaves the ring and joins the delivered messages *)
@@ -317,7 +331,9 @@ Proof.
     rewrite Ef.
     assert (Etag : map tag2 (msgs_of used) = map slot_tag (filter is_rec used)).
     { unfold msgs_of. rewrite map_map. reflexivity. }
-    apply (loginv_cons (mkCfg R cs prods) _ _ HL).
+    split; [| split].
+    + unfold dlog, delivered. cbn [g_ring g_cons cset_pc c_res c_pc set_slots r_slots]. rewrite Epc, app_nil_r.
+      rewrite Es, msgs_of_app, Eacc. rewrite <- app_assoc. reflexivity.
     + unfold log, delivered, pending. cbn [g_ring g_cons cset_pc c_res c_pc set_slots r_slots]. rewrite Epc, app_nil_r.
       rewrite Es, filter_app, !map_app. rewrite <- app_assoc. rewrite Eacc, Etag. reflexivity.
     + intros x Hx. unfold delivered in Hx |- *. cbn [cset_pc c_res c_pc g_cons] in Hx |- *. rewrite Epc, app_nil_r.
@@ -328,10 +344,17 @@ Proof.
   - (* CPutHead *)
     destruct Ics as ((limit & El) & Ehd & Hb). rewrite El in Hstep. subst hd.
     inversion Hstep; subst R' cs' e.
-    apply (loginv_cons (mkCfg R cs prods) _ _ HL).
+    split; [| split].
+    + unfold dlog. cbn [g_ring g_cons set_head r_slots]. rewrite delivered_finish. unfold delivered. rewrite Epc. reflexivity.
     + unfold log. cbn [g_ring g_cons]. rewrite delivered_finish. unfold delivered. rewrite Epc. reflexivity.
     + intros x Hx. left. cbn [g_cons]. rewrite delivered_finish in Hx. unfold delivered. rewrite Epc. exact Hx.
 Qed.
+
+Lemma cstep_log lo m cfg R' cs' e :
+  Inv lo cfg -> LogInv cfg -> cstep m (g_ring cfg) (g_cons cfg) = (R', cs', Some e) -> c_pc cs' <> CPanic ->
+  LogInv (mkCfg R' cs' (g_prods cfg)).
+Proof. intros HI HL Hstep Hnp. destruct (cstep_log_facts lo m cfg R' cs' e HI Hstep Hnp) as (_ & A & B).
+  apply (loginv_cons cfg R' cs' HL A B). Qed.
 
 (* ---- every reachable configuration ---- *)
 Lemma step_log lo m cfg tid cfg' e :
